@@ -98,8 +98,10 @@ def get_eof_2qubit(rho:np.ndarray):
     if tmp0==0:
         ret = 0
     else:
-        tmp1 = (1 + np.sqrt(1-tmp0*tmp0))/2
-        ret = -tmp1*np.log(tmp1) - (1-tmp1)*np.log(1-tmp1)
+        tmp1 = (1 + np.sqrt(max(0, 1-tmp0*tmp0)))/2
+        ret = -tmp1*np.log(tmp1)
+        if tmp1<1: #x*log(x)=0 at x=0, otherwise nan when the concurrence is below sqrt(machine-eps)
+            ret = ret - (1-tmp1)*np.log(1-tmp1)
     return ret
 
 
